@@ -24,6 +24,28 @@ pub fn run(thorough: bool) -> Vec<Part> {
         for (v, _) in &st.violations {
             part.violations.push(v.clone());
         }
+        // descriptors arriving before / with / after the rejected input: those pending at the
+        // error go with it, later ones belong to later requests (C12 defers this case to C11)
+        {
+            use crate::connx::{piece, Class};
+            let pcs = vec![
+                piece("rl_get", Class::ReqLine, b"GET / HTTP/1.1\r\n"),
+                piece("rl_bad_version", Class::ReqLine, b"GET / HTTP/1.2\r\n"),
+                piece("h_xa", Class::Header, b"X-a: 1\r\n"),
+                piece("h_nocolon", Class::Header, b"nocolon\r\n"),
+                piece("blank", Class::Blank, b"\r\n"),
+            ];
+            let mut fcfg = Cfg::base("C11", "post-error-lockstep-with-descriptors", pcs, 40);
+            fcfg.continue_after_error = true;
+            fcfg.empty_reads = false;
+            fcfg.max_fds_per_read = 1;
+            fcfg.max_pending_fds = 2;
+            let st2 = bfs(&fcfg, &Limits { max_states: 4_000_000, max_secs: if thorough { 1500.0 } else { 60.0 }, ..Default::default() }, workers());
+            record(&mut part, "post-error-lockstep-with-descriptors", &st2);
+            for (v, _) in &st2.violations {
+                part.violations.push(v.clone());
+            }
+        }
         parts.push(part);
     } else {
         parts.push(crate::props::srv::c11_server(thorough));
